@@ -67,6 +67,11 @@ Definition prop_code (total : Z) (ns : list node) (obs : list Z) : Z :=
   else if negb (fairb ns obs) then 5
   else 0.
 
+(* the observable of a result: the runtime of name rank 1..k (-1 if absent) *)
+Definition obs_of (ns : list node) (es : list entry) : list Z :=
+  map (fun k => match runtime_of k es with Some r => r | None => -1 end)
+      (map Z.of_nat (seq 1 (length ns))).
+
 (* well-formed sibling set as produced by the quotaTree map: names are exactly 1..k *)
 Definition names_ok (ns : list node) : Prop :=
   NoDup (map nm ns) /\ forall n, In n ns -> 1 <= nm n <= Z.of_nat (length ns).
